@@ -10,7 +10,7 @@ import LlgoVerif.Spec.DeferSem
 
     prog  := fn ('|' fn)*            fn := capR ';' stmts ';' events
     stmts := '' | stmt (',' stmt)*   stmt := kind '.' clo '.' nargs '.' fn        kind ∈ a c l
-    events:= '' | ev (',' ev)*       ev := d.k(.arg)* | c.g(.arg)* | m.int | p.arg | f | R | t | s.up.var.arg | a.up.var.arg | w.up.var
+    events:= '' | ev (',' ev)*       ev := d.k(.arg)* | c.g(.arg)* | m.int | p.arg | f | R | t | e | s.up.var.arg | a.up.var.arg | w.up.var
     arg   := l<int> | x | r | p<nat>
     answer: `<status> <flags> <trace>`; status ∈ ok, U:<v>, ub, stuck; trace lines joined by `|`, tokens by `.`  -/
 open LlgoVerif LlgoVerif.Util LlgoVerif.Defer
@@ -49,6 +49,7 @@ def parseEv (s : String) : Option Ev :=
   | ["f"] => some .fault
   | ["R"] => some .recover
   | ["t"] => some .ret
+  | ["e"] => some .entryEnd
   | ["s", u, v, a] => do pure (.set (← parseBool u) (← parseVar v) (← parseArg a))
   | ["a", u, v, a] => do pure (.add (← parseBool u) (← parseVar v) (← parseArg a))
   | ["w", u, v] => do pure (.show (← parseBool u) (← parseVar v))
